@@ -40,16 +40,53 @@ TEXT = {
   "technique": "Lean 4 proof about the write plan + journal-derived crash images (fault enumeration at every write boundary)",
  },
  "C01": {
-  "text": "Abstract ledger model (balances, confirmed sends, receive markers, token contract issue/mint/burn/update) with "
-          "kernel-checked guards (no send above balance, zero-token sends empty) and the negative witness for the "
-          "pre-enforcement-height double receive; the model is replayed against every accepted block of generated "
+  "text": "Kernel-checked invariants of the abstract ledger state machine (balances, confirmed sends, receive markers, "
+          "token contract issue/mint/burn/update), by induction over accepted blocks and lifted to all reachable states: "
+          "above the receiver-enforcement height, recorded supply = sum of balances + sum of unreceived sends for every "
+          "token (conservation); no debit of an accepted block exceeds the balance it is applied to and a burn never "
+          "exceeds the recorded supply (no_underflow, burn_within_supply); supply <= max supply (supply_le_max); only a "
+          "status-1 receive of the token contract changes token storage, every other block - in particular a refunded "
+          "call, which emits exactly the refund - leaves supply and the sum unchanged; negative witness for the "
+          "pre-enforcement-height double receive. The model is replayed against every accepted block of generated "
           "histories on a real node with all balances/supplies compared after each momentum, and a model-free monitor "
           "checks balances + unreceived sends = supply <= max at every momentum and pool state.",
   "design_ref": "§3 C01",
-  "note": "Invariant-by-induction theorems are being extended (see evidence.theorems for what is proved in this run); "
-          "non-token contract methods enter as observed outcomes; below ReceiverMismatchEnforcementHeight the property is "
-          "false of the code (known finding F8).",
-  "technique": "Lean 4 proof over a ledger state machine + differential replay of accepted blocks + conservation monitor",
+  "note": "Non-token contract methods enter as observed outcomes (status, descendants); hash freshness and the send-time "
+          "check total <= max of issue calls are hypotheses of reachability; genesis consistency (T5) is C20; below "
+          "ReceiverMismatchEnforcementHeight the property is false of the code (known finding F8).",
+  "technique": "Lean 4 invariant proof (induction over reachable states) + differential replay of accepted blocks + conservation monitor",
+ },
+ "C04": {
+  "text": "Kernel-checked invariants of the ledger state machine, by induction over accepted blocks (user send, user "
+          "receive, contract receive with observed outcome): receive markers pairwise distinct (no account receives a "
+          "send twice; a second attempt is refused with exactly alreadyReceived / notNext in every later state); above "
+          "the receiver-enforcement height every marker belongs to the send's addressee and every send hash has at most "
+          "one marker on the whole ledger; for every embedded contract the received hashes in acceptance order are a "
+          "prefix (= take front) of the confirmed sends addressed to it in confirmation order. Negative witness: below "
+          "the gate one send gets two markers. The model is the one replayed against every accepted block of generated "
+          "histories on a real node (ledger stream); model-free monitors scan send-hash -> receiving blocks and the FIFO "
+          "order on the real stores.",
+  "design_ref": "§3 C04",
+  "note": "Theorems are about the current chain of one node (T1-T4, N1); reorg/pool-replacement/restart stability (T5) is "
+          "exercised by the stream only. Hash freshness is a hypothesis of reachability. Below "
+          "ReceiverMismatchEnforcementHeight T2/T3 are false of the code (known finding F8).",
+  "technique": "Lean 4 invariant proof (induction over reachable states) + differential replay of accepted blocks + at-most-once/FIFO monitors",
+ },
+ "C09": {
+  "text": "Kernel-checked on the ledger model with contract methods as parameters: every accepted contract receive has "
+          "status applied or refunded, a refund emits exactly the sent amount back to the sender (nothing for amount 0), "
+          "leaves token storage and the contract's balance unchanged; in both cases the contract's balance moves by "
+          "+amount (+mint -burn for the token contract) - sum of descendants with no truncation; afterwards the inbox has "
+          "advanced by exactly one (the received send is marked, the next queued send is next in line); for a non-token "
+          "contract the refund of whatever is next in line is always accepted (it cannot fail for lack of funds), so no "
+          "accepted call can wedge the inbox at the VM-skeleton level; the token contract (methods modelled) always has an "
+          "accepted outcome when the zero token standard has no storage entry. Tied to the code by the ledger stream "
+          "(every embedded method with generated ABI arguments; exact-refund monitor).",
+  "design_ref": "§3 C09",
+  "note": "Panic-freedom/termination of the Go methods and ABI decoder (T3-T5) is correspondence only in this round. The "
+          "model's applySend omits the destination contract's method lookup: in Go a refund to an embedded sender (empty "
+          "call data) is refused, so the refund-always-possible theorem transfers to the code for non-embedded senders only.",
+  "technique": "Lean 4 proof over the ledger state machine + differential replay of accepted blocks + exact-refund monitor",
  },
  "C07": {
   "text": "Kernel-checked on the EXECUTABLE manager model (Ldb = ldbManager, cache-free Get) for every reachable state "
